@@ -6,7 +6,7 @@ import random
 from typing import Any, Dict, Iterator, List
 
 USER = ["a", "b", "c"]
-POOL = [1, 2, 3, 4, 5, 6, 7, 8, 9, 10, 11, 12, 13, 14, 15, 16, 17, 18, 19, 20, 21, 27, 28, 40, 41, 42, 43, 44, 46, 47]
+POOL = [1, 2, 3, 4, 5, 6, 7, 8, 9, 10, 11, 12, 13, 14, 15, 16, 17, 18, 19, 20, 21, 27, 28, 40, 41, 42, 43, 44, 46, 47, 45, 51]
 MODES = ["ok", "fail", "fail", "failb", "nores", "requeue"]
 
 
@@ -61,6 +61,10 @@ def gen_hist(seed: int, n: int) -> List[Dict[str, Any]]:
                 ops.append(rng.choice([["run_last", rng.choice(MODES)], ["run", rng.randint(1, max(1, sent + 2)), rng.choice(MODES)]]))
         for _ in range(rng.randint(0, 5)):
             ops.append(["run_last", rng.choice(MODES)])
+        if len(out) % 5 == 3:                    # the broker refuses the re-send of a failed attempt
+            ops = [(o[:-1] + ["failk"]) if o[0] in ("run", "run_last") and o[-1] == "fail" else o for o in ops]
+        cfg["noparse"] = len(out) % 4 == 1       # worker started with --no-parse
+        cfg["noprop"] = len(out) % 4 == 2        # worker started with --no-propagate-errors
         out.append({"cfg": cfg, "ops": ops, "family": "hist"})
     return out
 
